@@ -2,11 +2,12 @@ use super::idmap::{IdIndex, IdMap};
 
 /// Id uniquely identifying namespace.
 #[derive(Debug, Clone, Copy, Hash, PartialEq, Eq, Ord, PartialOrd)]
-pub struct NamespaceId(u16);
+pub struct NamespaceId(u32);
 
 impl IdIndex<NamespaceId> for NamespaceId {
     fn to_id(index: usize) -> NamespaceId {
-        NamespaceId(index as u16)
+        // ids used to be 16 bit wide and silently wrapped around
+        NamespaceId(u32::try_from(index).expect("too many ids"))
     }
 
     fn from_id(id: NamespaceId) -> usize {
